@@ -51,34 +51,20 @@ def unhex (s : String) : Option (List Char) :=
   | 'x' :: cs => unhexList cs
   | _ => none
 
-/-- What `MetricOperationsFromFile` returns for this file text (class: `deleted`, `badbatch`). -/
+/-- Class → the two facts the text does not decide (`deleted`: the hook removed the file;
+`badbatch`: `ValidateOperations` rejects the operations). -/
 def metricsOf (cls : String) (text : List Char) : Metrics :=
-  if cls == "deleted" then .err
-  else if text.isEmpty then .none
-  else match Text.streamOk (Text.typed Text.metricTable) text with
-    | none => .err
-    | some [] => .none
-    | some _ => .ops (cls != "badbatch")
+  Text.metricsOfText (cls == "deleted") (cls != "badbatch") text
 
 def respOf (ok : Text.V → Bool) (cls : String) (text : List Char) : Resp :=
-  if cls == "deleted" then .err
-  else if text.isEmpty then .none
-  else match Text.wholeOk ok text with
-    | none => .err
-    | some _ => .some
-
-def convOk (v : Text.V) : Bool := Text.typed Text.conversionTable v && Text.convObjectsOk v
+  Text.respOfText ok (cls == "deleted") text
 
 def patchOf (cls fmt : String) (text : List Char) : Patch :=
   let byClass : Patch :=
     if cls == "valid" then .ops true else if cls == "applyerr" then .ops false else .parseErr
-  if cls == "deleted" then .unreadable
+  if fmt == "json" then Text.patchOfText (cls == "deleted") byClass text
+  else if cls == "deleted" then .unreadable
   else if text.isEmpty then .empty
-  else if fmt == "json" then
-    match Text.streamOk Text.isObj text with
-    | none => .parseErr
-    | some [] => .empty
-    | some _ => byClass
   else byClass
 
 def namesFor (eid : Nat) : Names :=
@@ -104,7 +90,7 @@ def parseExec (rest : List String) : Option (Bool × Outputs) := do
   let pt ← (kv? "pt" rest).bind unhex
   let pf ← kv? "pf" rest
   if pf != "json" && pf != "yaml" then none
-  some (allow, ⟨exit, metricsOf mc mt, respOf (Text.typed Text.admissionTable) ac at', respOf convOk cc ct,
+  some (allow, ⟨exit, metricsOf mc mt, respOf Text.admissionOk ac at', respOf Text.conversionOk cc ct,
     patchOf pc pf pt⟩)
 
 def step (st : S) (toks : List String) : S × String :=
